@@ -578,3 +578,300 @@ pub proof fn lemma_sel_step(v: Seq<%(E)s>, t: int, k: nat)
     }
 }
 '''
+
+
+# ---------------------------------------------------------------------------------------------------------------------
+# 1230 (GLONASS code-phase biases): sort by signal, 4-bit signal mask, one 16-bit bias per entry in sorted order.
+RE_ENC_1230 = re.compile(
+    r"^let mut sig_mask: u8 = 0; let mut value = value\.clone\(\); let slice = value\.as_mut_slice\(\); slice\.sort_unstable_by\((?P<clo>.+?)\); "
+    r"for v in slice\.iter\(\) \{ let sig_id = v\.signal_id; match \(sig_id\.band\(\), sig_id\.attribute\(\)\) \{ "
+    r"\((?P<b0>\d+), '(?P<a0>.)'\) => \{ sig_mask \|= (?P<m0>[^;]+); \} \((?P<b1>\d+), '(?P<a1>.)'\) => \{ sig_mask \|= (?P<m1>[^;]+); \} "
+    r"\((?P<b2>\d+), '(?P<a2>.)'\) => \{ sig_mask \|= (?P<m2>[^;]+); \} \((?P<b3>\d+), '(?P<a3>.)'\) => \{ sig_mask \|= (?P<m3>[^;]+); \} "
+    r"_ => \{ return Err\(RtcmError::InvalidSignalId\); \} \} \} asm\.put::<U8>\(sig_mask, (?P<MW>\d+)\)\?; "
+    r"for v in slice\.iter\(\) \{ let mut bias = v\.bias_m; bias /= (?P<RES>[0-9.]+); let bias = if bias > 0\.0 \{ bias \+ 0\.5 \} else \{ bias - 0\.5 \} as i16; "
+    r"asm\.put::<I16>\(bias, (?P<BW>\d+)\)\?; \} Ok\(\(\)\)$")
+
+SPEC_1230 = '''
+// RTCM 10403.3 message 1230: 4-bit FDMA signals mask, most significant bit first: L1 C/A, L1 P, L2 C/A, L2 P; then one 16-bit bias (0.02 m) per set bit
+pub open spec fn idx(g: GloSigId) -> Option<int> {
+    if g.0 == 1 && g.1 == 'C' { Some(0int) } else if g.0 == 1 && g.1 == 'P' { Some(1int) } else if g.0 == 2 && g.1 == 'C' { Some(2int) } else if g.0 == 2 && g.1 == 'P' { Some(3int) } else { None }
+}
+pub open spec fn sig_at(i: int) -> GloSigId { if i == 0 { GloSigId(1, 'C') } else if i == 1 { GloSigId(1, 'P') } else if i == 2 { GloSigId(2, 'C') } else { GloSigId(2, 'P') } }
+pub open spec fn sbit(i: int) -> u8 { if i == 0 { 8u8 } else if i == 1 { 4u8 } else if i == 2 { 2u8 } else { 1u8 } }
+pub open spec fn mor(p: Seq<%(E)s>, k: nat) -> u8 decreases k { if k == 0 { 0u8 } else { mor(p, (k - 1) as nat) | sbit(idx(p[k - 1].signal_id)->Some_0) } }
+pub open spec fn cat(p: Seq<%(E)s>, k: nat) -> Seq<bool> decreases k {
+    if k == 0 { Seq::<bool>::empty() } else { cat(p, (k - 1) as nat) + crate::sbits(crate::bias_q(p[k - 1].bias_m, 0.02f32) as int, 16) }
+}
+pub open spec fn all_rec(p: Seq<%(E)s>, k: int) -> bool { forall|j: int| 0 <= j < k ==> idx((#[trigger] p[j]).signal_id) is Some }
+pub open spec fn sorted_sig(p: Seq<%(E)s>) -> bool { forall|i: int, j: int| 0 <= i < j < p.len() ==> cmp_spec((#[trigger] p[i]).signal_id, (#[trigger] p[j]).signal_id) != core::cmp::Ordering::Greater }
+pub open spec fn enc1230(p: Seq<%(E)s>) -> Seq<bool> { crate::bits_of_int(mor(p, p.len()) as int, 4) + cat(p, p.len()) }
+pub proof fn lemma_mor_lt16(p: Seq<%(E)s>, k: nat)
+    ensures mor(p, k) < 16,
+    decreases k
+{
+    if k > 0 {
+        lemma_mor_lt16(p, (k - 1) as nat);
+        let m = mor(p, (k - 1) as nat); let y = sbit(idx(p[k - 1].signal_id)->Some_0);
+        assert((m | y) < 16u8) by(bit_vector) requires m < 16u8, y == 1u8 || y == 2u8 || y == 4u8 || y == 8u8;
+    }
+}
+// the decoder as a function of the remaining bits
+pub open spec fn deq2(q: i16) -> f32 { crate::f32_scale_spec(q, 0.02f32) }
+pub open spec fn dec_f(w: Seq<bool>, mask: u8, i: nat, acc: Seq<%(E)s>) -> Option<(Seq<%(E)s>, Seq<bool>)> decreases 4 - i {
+    if i >= 4 { Some((acc, w)) }
+    else if mask & sbit(i as int) != 0 {
+        if w.len() < 16 { None }
+        else { dec_f(w.subrange(16, w.len() as int), mask, i + 1, acc.push(%(E)s { signal_id: sig_at(i as int), bias_m: deq2(crate::sval(w.subrange(0, 16))) })) }
+    } else { dec_f(w, mask, i + 1, acc) }
+}
+pub open spec fn dec1230(w: Seq<bool>) -> Option<(Seq<%(E)s>, Seq<bool>)> {
+    if w.len() < 4 { None } else { dec_f(w.subrange(4, w.len() as int), crate::uval(w.subrange(0, 4)) as u8, 0, Seq::<%(E)s>::empty()) }
+}
+'''
+
+
+def is_1230(fr):
+    return fr.name == 'df_msg1230_biases'
+
+
+def emit_1230(vf, exp, path, fr, ind):
+    m = RE_ENC_1230.match(fr.enc_body)
+    if not m:
+        raise ToolLimit('%s: encode does not have the expected shape: %s' % (fr.name, fr.enc_body[:300]))
+    C = m.groupdict()
+    E = fr.struct.name
+    pid = fr.name
+    D = {'E': E}
+    vf.emit(ind + '#[allow(unused_imports)] use crate::msg::msm_mappings::glo::{cmp_spec, sig_cmp, lemma_total_order};')
+    vf.emit('\n'.join(ind + l for l in (SPEC_1230 % D).split('\n')))
+    # ---- encode_checked
+    sp = FnSpec(); sp.ret = 'r'; sp.body_props = P
+    sp.rename = 'encode_checked'
+    sp.attrs = '#[verifier::rlimit(100)]'
+    sp.replace = [
+        (r'\b(asm|par)\.(put|parse)::<(\w+)>\(', r'\1.\2_\3(', 'R6 generic L0 call monomorphised'),
+        (r'(?s)slice\s*\.\s*sort_unstable_by\s*\(\s*\|a, b\|\s*(?P<body>.*?)\)\s*;(?=\s*for v in slice)',
+         lambda mm: 'slice.sort_unstable_by(|a: &%s, b: &%s| -> (o: core::cmp::Ordering) ensures o == cmp_spec(a.signal_id, b.signal_id) { %s });' % (E, E, mm.group('body').strip()),
+         'R9 closure comparator annotated: parameter types, result name and `ensures o == cmp_spec(..)`'),
+        (r'(\w+)\.signal_id\.cmp\(&(\w+)\.signal_id\)', r'sig_cmp(&\1.signal_id, &\2.signal_id)', 'X6 <SigId as Ord>::cmp called as the free function sig_cmp'),
+        (r'let mut bias = v\.bias_m;\s*bias /= ([0-9.]+);\s*let bias =\s*if bias > 0\.0 \{ bias \+ 0\.5 \} else \{ bias - 0\.5 \} as i16;',
+         r'let bias = crate::verif_bias_quant(v.bias_m, \1);', 'RF float quantiser abstracted by an uninterpreted helper; its arithmetic is decided by engine S'),
+    ]
+    sp.requires = [('l2.%s.encode.pre' % pid, set(), 'old(asm).cap() <= 0x100_0000_0000')]
+    sp.ensures = [
+        ('l2.%s.encode.frame' % pid, P, 'final(asm).cap() == old(asm).cap() && final(asm).poison() == old(asm).poison()'),
+        ('l2.%s.encode.append_only' % pid, P, 'final(asm).bits().len() >= old(asm).bits().len() && final(asm).bits().subrange(0, old(asm).bits().len() as int) == old(asm).bits()'),
+        ('l2.%s.encode.error_kinds' % pid, P, 'r is Err ==> (r->Err_0 is BufferOverflow || r->Err_0 is InvalidSignalId)'),
+        ('l2.%s.encode.unrecognised_signal_rejected' % pid, {'C16'},
+         'r is Ok ==> forall|j: int| 0 <= j < value@.len() ==> idx((#[trigger] value@[j]).signal_id) is Some'),
+        ('l2.%s.encode.mask_then_sorted_biases' % pid, {'C16', 'C01'},
+         'r is Ok ==> exists|p: Seq<%s>| #![trigger enc1230(p)] p.to_multiset() == value@.to_multiset() && sorted_sig(p) && all_rec(p, p.len() as int)\n'
+         '    && final(asm).bits() == old(asm).bits() + enc1230(p)' % E),
+    ]
+    A = sp.inserts.append
+    A(('before', 'let mut sig_mask: u8 = 0;', 0, 'let ghost verif_v0 = value@; let ghost vb0 = asm.bits();'))
+    A(('after', 'slice.sort_unstable_by', 0,
+       'let ghost verif_p = slice@;\nproof { assert(verif_p.to_multiset() == verif_v0.to_multiset()); assert(sorted_sig(verif_p)); '
+       'assert((1u8 << 3u8) == 8u8 && (1u8 << 2u8) == 4u8 && (1u8 << 1u8) == 2u8) by(bit_vector); }'))
+    sp.loops[0] = '''    invariant
+        slice@ == verif_p, verif_k0 <= verif_p.len(), all_rec(verif_p, verif_k0 as int), sig_mask == mor(verif_p, verif_k0 as nat),
+        asm.bits() == vb0, vb0 == old(asm).bits(), asm.cap() == old(asm).cap(), asm.poison() == old(asm).poison(), asm.cap() <= 0x100_0000_0000,
+        (1u8 << 3u8) == 8u8 && (1u8 << 2u8) == 4u8 && (1u8 << 1u8) == 2u8,
+    decreases slice.len() - verif_k0,'''
+    after0 = ('''proof {
+    broadcast use vstd::seq_lib::group_to_multiset_ensures;
+    lemma_mor_lt16(verif_p, verif_p.len());
+    assert forall|j: int| 0 <= j < verif_v0.len() implies idx((#[trigger] verif_v0[j]).signal_id) is Some by {
+        assert(verif_v0.contains(verif_v0[j]));
+        assert(verif_v0.to_multiset().count(verif_v0[j]) > 0);
+        assert(verif_p.to_multiset().count(verif_v0[j]) > 0);
+        assert(verif_p.contains(verif_v0[j]));
+        let i = choose|i: int| 0 <= i < verif_p.len() && verif_p[i] == verif_v0[j];
+        assert(idx(verif_p[i].signal_id) is Some);
+    }
+}''')
+    A(('before', 'asm.put_U8(sig_mask, %s)?;' % C['MW'], 0, after0))
+    A(('after', 'asm.put_U8(sig_mask, %s)?;' % C['MW'], 0, 'let ghost vb1 = asm.bits();\nproof { assert(asm.bits() =~= vb1 + cat(verif_p, 0)); }'))
+    sp.loops[1] = '''    invariant
+        slice@ == verif_p, verif_k1 <= verif_p.len(),
+        asm.cap() == old(asm).cap(), asm.poison() == old(asm).poison(), asm.cap() <= 0x100_0000_0000,
+        vb0 == old(asm).bits(), vb1 == vb0 + crate::bits_of_int(mor(verif_p, verif_p.len()) as int, 4),
+        asm.bits() == vb1 + cat(verif_p, verif_k1 as nat),
+    decreases slice.len() - verif_k1,'''
+    sp.loopbodies[1] = 'proof { assert(asm.bits().subrange(0, vb0.len() as int) =~= vb0); }'
+    A(('after', 'asm.put_I16(bias, %s)?;' % C['BW'], 0,
+       'proof { assert(asm.bits() =~= vb1 + (cat(verif_p, verif_k1 as nat) + crate::sbits(crate::bias_q(verif_p[verif_k1 as int].bias_m, 0.02f32) as int, 16))); }'))
+    A(('before', 'Ok(())', 0, 'proof { assert(asm.bits() =~= vb0 + enc1230(verif_p)); assert(asm.bits().subrange(0, vb0.len() as int) =~= vb0); }'))
+    vgen.emit_fn(vf, exp, path + ['fn:encode'], sp, label='df::dfs::%s::encode' % pid, indent=ind, keep_pub=True)
+
+
+def emit_1230_decode(vf, exp, path, fr, ind):
+    """decode_checked of 1230: real text == the spec parser dec1230 (plus capacity / panic-freedom)"""
+    pid = fr.name
+    E = fr.struct.name
+    for c in fr.mod.children:
+        if c.kind == 'fn' and c.name == 'to_sig':
+            sp = FnSpec(); sp.ret = 'r'; sp.body_props = {'C16', 'C02'}
+            vgen.emit_fn(vf, exp, path + ['fn:to_sig'], sp, label='%s::to_sig' % fr.name, indent=ind, keep_pub=True)
+    sp = FnSpec(); sp.ret = 'r'; sp.body_props = {'C16', 'C02'}
+    sp.rename = 'decode_checked'
+    sp.attrs = '#[verifier::rlimit(100)]'
+    sp.replace = [
+        (r'\b(asm|par)\.(put|parse)::<(\w+)>\(', r'\1.\2_\3(', 'R6 generic L0 call monomorphised'),
+        (r'\(par\.parse_I16\((\d+)\)\? as f32\) \* ([0-9.]+)', r'crate::verif_f32_scale(par.parse_I16(\1)?, \2)', 'RF float arithmetic (int->f32 cast and multiplication by a constant; cannot panic) abstracted by an uninterpreted helper'),
+        (r'::core::panicking::panic\("internal error: entered unreachable code"\),?', 'unreachable!(),', 'RX expansion of unreachable!() folded back'),
+    ]
+    sp.ensures = [
+        ('l2.%s.decode.never_exceeds_capacity' % pid, {'C16', 'C02'}, 'r is Ok ==> r->Ok_0@.len() <= 4'),
+        ('l2.%s.decode.is_the_spec_parser' % pid, {'C16', 'C01'},
+         '(r is Ok) == (dec1230(old(par).rest()) is Some)\n'
+         '    && (r is Ok ==> r->Ok_0@ == dec1230(old(par).rest())->Some_0.0 && final(par).rest() == dec1230(old(par).rest())->Some_0.1)'),
+        ('l2.%s.decode.error_kinds' % pid, {'C16', 'C02'}, 'r is Err ==> r->Err_0 is BufferOverflow'),
+    ]
+    A = sp.inserts.append
+    A(('before', 'let sig_mask: u8 = par.parse_U8(4)?;', 0,
+       'let ghost verif_s0 = par.rest();\nproof { if verif_s0.len() >= 4 { assert forall|x: u8| #![trigger crate::bits_of_int(x as int, 4)] crate::bits_of_int(x as int, 4) == verif_s0.subrange(0, 4) && (x as int) < crate::pow2(4) '
+       'implies x as int == crate::uval(verif_s0.subrange(0, 4)) by { crate::lemma_uval_bits(x as int, 4); } } '
+       'assert((1u8 << 3u8) == 8u8 && (1u8 << 2u8) == 4u8 && (1u8 << 1u8) == 2u8 && (1u8 << 0u8) == 1u8) by(bit_vector); }'))
+    sp.loops[0] = '''    invariant
+        value@.len() <= i, i <= 4, verif_s0 == old(par).rest(), verif_s0.len() >= 4, sig_mask as int == crate::uval(verif_s0.subrange(0, 4)),
+        (1u8 << 3u8) == 8u8 && (1u8 << 2u8) == 4u8 && (1u8 << 1u8) == 2u8 && (1u8 << 0u8) == 1u8,
+        dec1230(verif_s0) == dec_f(par.rest(), sig_mask, i as nat, value@),'''
+    sp.loopbodies[0] = ('let ghost verif_w = par.rest();\nproof { assert(i == 0 || i == 1 || i == 2 || i == 3); '
+                        'if verif_w.len() >= 16 { assert(verif_w.subrange(16, verif_w.len() as int).len() == verif_w.len() - 16); } }')
+    vgen.emit_fn(vf, exp, path + ['fn:decode'], sp, label='df::dfs::%s::decode' % pid, indent=ind, keep_pub=True)
+    vf.emit('\n'.join(ind + l for l in (INVERSE_1230 % {'E': E}).split('\n')))
+    vgen.emit_lemma(vf, 'l2.%s.decode_inverts_encode' % pid, {'C16', 'C01'}, '\n'.join(ind + l for l in (THEOREM_1230 % {'E': E}).split('\n')))
+
+
+INVERSE_1230 = '''
+// ---- the spec parser inverts the spec encoder on sorted lists of distinct recognised signals (pure lemmas)
+pub open spec fn redec2(e: %(E)s) -> %(E)s { %(E)s { signal_id: e.signal_id, bias_m: deq2(crate::sval(crate::sbits(crate::bias_q(e.bias_m, 0.02f32) as int, 16))) } }
+pub open spec fn strict(p: Seq<%(E)s>) -> bool { forall|i: int, j: int| 0 <= i < j < p.len() ==> idx((#[trigger] p[i]).signal_id)->Some_0 < idx((#[trigger] p[j]).signal_id)->Some_0 }
+pub open spec fn distinct(p: Seq<%(E)s>) -> bool { forall|i: int, j: int| 0 <= i < j < p.len() ==> (#[trigger] p[i]).signal_id != (#[trigger] p[j]).signal_id }
+pub open spec fn has_idx(p: Seq<%(E)s>, k: int, t: int) -> bool { exists|j: int| 0 <= j < k && idx((#[trigger] p[j]).signal_id) == Some(t) }
+pub proof fn lemma_sig_table(g: GloSigId)
+    requires idx(g) is Some,
+    ensures 0 <= idx(g)->Some_0 < 4, sig_at(idx(g)->Some_0) == g,
+        crate::msg::msm_mappings::glo::to_id_spec(g) is Some,
+        crate::msg::msm_mappings::glo::to_id_spec(g)->Some_0 == (if idx(g)->Some_0 == 0 { 2u8 } else if idx(g)->Some_0 == 1 { 3u8 } else if idx(g)->Some_0 == 2 { 8u8 } else { 9u8 }),
+{}
+pub proof fn lemma_sorted_distinct_is_strict(p: Seq<%(E)s>)
+    requires sorted_sig(p), all_rec(p, p.len() as int), distinct(p),
+    ensures strict(p),
+{
+    assert forall|i: int, j: int| 0 <= i < j < p.len() implies idx((#[trigger] p[i]).signal_id)->Some_0 < idx((#[trigger] p[j]).signal_id)->Some_0 by {
+        let a = p[i].signal_id; let b = p[j].signal_id;
+        lemma_sig_table(a); lemma_sig_table(b);
+        lemma_total_order(a, b, a);
+        if idx(a)->Some_0 == idx(b)->Some_0 { assert(sig_at(idx(a)->Some_0) == sig_at(idx(b)->Some_0)); }
+    }
+}
+pub proof fn lemma_cat_front(p: Seq<%(E)s>, k: nat)
+    requires 1 <= k <= p.len(),
+    ensures cat(p, k) == crate::sbits(crate::bias_q(p[0].bias_m, 0.02f32) as int, 16) + cat(p.subrange(1, p.len() as int), (k - 1) as nat),
+    decreases k
+{
+    let q = p.subrange(1, p.len() as int);
+    let h = crate::sbits(crate::bias_q(p[0].bias_m, 0.02f32) as int, 16);
+    if k == 1 {
+        assert(cat(p, 1) =~= cat(p, 0) + h);
+        assert(cat(p, 1) =~= h + cat(q, 0));
+    } else {
+        lemma_cat_front(p, (k - 1) as nat);
+        assert(q[k - 2] == p[k - 1]);
+        let t = crate::sbits(crate::bias_q(p[k - 1].bias_m, 0.02f32) as int, 16);
+        assert(cat(p, k) =~= h + (cat(q, (k - 2) as nat) + t));
+    }
+}
+pub proof fn lemma_mor_bits(p: Seq<%(E)s>, k: nat, t: int)
+    requires k <= p.len(), all_rec(p, p.len() as int), 0 <= t < 4,
+    ensures (mor(p, k) & sbit(t) != 0) == has_idx(p, k as int, t),
+    decreases k
+{
+    if k == 0 {
+        let x = sbit(t);
+        assert(0u8 & x == 0u8) by(bit_vector);
+    } else {
+        let k1 = (k - 1) as nat;
+        lemma_mor_bits(p, k1, t);
+        lemma_sig_table(p[k - 1].signal_id);
+        let m = mor(p, k1); let y = sbit(idx(p[k - 1].signal_id)->Some_0); let x = sbit(t);
+        assert((((m | y) & x) != 0u8) == (((m & x) != 0u8) || x == y)) by(bit_vector)
+            requires (y == 1u8 || y == 2u8 || y == 4u8 || y == 8u8), (x == 1u8 || x == 2u8 || x == 4u8 || x == 8u8);
+        assert((x == y) == (idx(p[k - 1].signal_id) == Some(t)));
+        if has_idx(p, k as int, t) {
+            let j = choose|j: int| 0 <= j < k && idx((#[trigger] p[j]).signal_id) == Some(t);
+            if j < k1 { assert(has_idx(p, k1 as int, t)); }
+        }
+        if has_idx(p, k1 as int, t) {
+            let j = choose|j: int| 0 <= j < k1 && idx((#[trigger] p[j]).signal_id) == Some(t);
+            assert(0 <= j < k && idx(p[j].signal_id) == Some(t));
+        }
+        if idx(p[k - 1].signal_id) == Some(t) { assert(has_idx(p, k as int, t)); }
+    }
+}
+pub proof fn lemma_dec_f(p: Seq<%(E)s>, mask: u8, i: nat, acc: Seq<%(E)s>, tail: Seq<bool>)
+    requires
+        i <= 4, all_rec(p, p.len() as int), strict(p), p.len() > 0 ==> idx(p[0].signal_id)->Some_0 >= i,
+        forall|t: int| i <= t < 4 ==> ((mask & sbit(t) != 0) == has_idx(p, p.len() as int, t)),
+    ensures dec_f(cat(p, p.len()) + tail, mask, i, acc) == Some((acc + p.map_values(|e: %(E)s| redec2(e)), tail)),
+    decreases 4 - i
+{
+    let f = |e: %(E)s| redec2(e);
+    if i >= 4 {
+        if p.len() > 0 { lemma_sig_table(p[0].signal_id); }
+        assert(p.len() == 0);
+        assert(cat(p, 0) + tail =~= tail);
+        assert(acc + p.map_values(f) =~= acc);
+    } else if p.len() > 0 && idx(p[0].signal_id)->Some_0 == i {
+        let q = p.subrange(1, p.len() as int);
+        let h = crate::sbits(crate::bias_q(p[0].bias_m, 0.02f32) as int, 16);
+        crate::axiom_sbits_len(crate::bias_q(p[0].bias_m, 0.02f32) as int, 16);
+        lemma_cat_front(p, p.len());
+        let w = cat(p, p.len()) + tail;
+        assert(w =~= h + (cat(q, q.len()) + tail));
+        assert(w.subrange(0, 16) =~= h);
+        assert(w.subrange(16, w.len() as int) =~= cat(q, q.len()) + tail);
+        assert(has_idx(p, p.len() as int, i as int));
+        lemma_sig_table(p[0].signal_id);
+        let e1 = %(E)s { signal_id: sig_at(i as int), bias_m: deq2(crate::sval(h)) };
+        assert(e1 == redec2(p[0]));
+        // the rest of the list starts above i
+        assert(all_rec(q, q.len() as int)) by { assert forall|j: int| 0 <= j < q.len() implies idx((#[trigger] q[j]).signal_id) is Some by { assert(q[j] == p[j + 1]); } }
+        assert(strict(q)) by { assert forall|a: int, b: int| 0 <= a < b < q.len() implies idx((#[trigger] q[a]).signal_id)->Some_0 < idx((#[trigger] q[b]).signal_id)->Some_0 by { assert(q[a] == p[a + 1] && q[b] == p[b + 1]); } }
+        if q.len() > 0 { assert(q[0] == p[1]); }
+        assert forall|t: int| i + 1 <= t < 4 implies ((mask & sbit(t) != 0) == has_idx(q, q.len() as int, t)) by {
+            if has_idx(p, p.len() as int, t) { let j = choose|j: int| 0 <= j < p.len() && idx((#[trigger] p[j]).signal_id) == Some(t); assert(j >= 1); assert(q[j - 1] == p[j]); assert(has_idx(q, q.len() as int, t)); }
+            if has_idx(q, q.len() as int, t) { let j = choose|j: int| 0 <= j < q.len() && idx((#[trigger] q[j]).signal_id) == Some(t); assert(q[j] == p[j + 1]); assert(has_idx(p, p.len() as int, t)); }
+        }
+        lemma_dec_f(q, mask, i + 1, acc.push(e1), tail);
+        assert(acc.push(e1) + q.map_values(f) =~= acc + p.map_values(f));
+    } else {
+        // no entry has index i: the mask bit is clear
+        assert(!has_idx(p, p.len() as int, i as int)) by {
+            if has_idx(p, p.len() as int, i as int) { let j = choose|j: int| 0 <= j < p.len() && idx((#[trigger] p[j]).signal_id) == Some(i as int); if j > 0 { assert(idx(p[0].signal_id)->Some_0 < idx(p[j].signal_id)->Some_0); } }
+        }
+        lemma_dec_f(p, mask, i + 1, acc, tail);
+    }
+}
+'''
+
+THEOREM_1230 = '''pub proof fn lemma_c16_1230(p: Seq<%(E)s>, tail: Seq<bool>)
+    requires sorted_sig(p), all_rec(p, p.len() as int), distinct(p),
+    ensures dec1230(enc1230(p) + tail) == Some((p.map_values(|e: %(E)s| redec2(e)), tail)),
+{
+    lemma_sorted_distinct_is_strict(p);
+    let m = mor(p, p.len());
+    lemma_mor_lt16(p, p.len());
+    let w = enc1230(p) + tail;
+    crate::lemma_bits_len(m as int, 4);
+    assert(crate::pow2(4) == 16) by(compute);
+    crate::lemma_uval_bits(m as int, 4);
+    assert(w.subrange(0, 4) =~= crate::bits_of_int(m as int, 4));
+    assert(w.subrange(4, w.len() as int) =~= cat(p, p.len()) + tail);
+    assert forall|t: int| 0 <= t < 4 implies ((m & sbit(t) != 0) == has_idx(p, p.len() as int, t)) by { lemma_mor_bits(p, p.len(), t); }
+    if p.len() > 0 { lemma_sig_table(p[0].signal_id); }
+    lemma_dec_f(p, m, 0, Seq::<%(E)s>::empty(), tail);
+    assert(Seq::<%(E)s>::empty() + p.map_values(|e: %(E)s| redec2(e)) =~= p.map_values(|e: %(E)s| redec2(e)));
+}'''
